@@ -65,12 +65,13 @@ class HObj:
 
 
 class VC:
-    __slots__ = ('name', 'pc', 'goal', 'site', 'path', 'func', 'kind')
+    __slots__ = ('name', 'pc', 'goal', 'site', 'path', 'func', 'kind', 'roles')
 
-    def __init__(self, name, pc, goal, site, path, func, kind='oblig'):
+    def __init__(self, name, pc, goal, site, path, func, kind='oblig', roles=None):
         self.name = name
         self.pc = pc
         self.goal = goal
+        self.roles = roles
         self.site = site
         self.path = path
         self.func = func
@@ -123,6 +124,26 @@ class Explorer:
             stack[-1][0] += 1
 
 
+_hq_cache = {}
+
+
+def has_quantifier(e):
+    k = e.get_id()
+    r = _hq_cache.get(k)
+    if r is not None:
+        return r
+    if z3.is_quantifier(e):
+        r = True
+    elif z3.is_app(e):
+        r = any(has_quantifier(ch) for ch in e.children())
+    else:
+        r = False
+    if len(_hq_cache) > 200000:
+        _hq_cache.clear()
+    _hq_cache[k] = r
+    return r
+
+
 class Ctx:
     def __init__(self, ex, prefix):
         self.ex = ex
@@ -141,6 +162,8 @@ class Ctx:
         self.hooks = {}           # name -> callable, installed by specs (crash invariants, ...)
         self.cur_spec = None
         self.locks_held = {}
+        from .ground import Roles
+        self.roles = Roles()
 
     # ---- logical state
     def assume(self, b):
@@ -148,17 +171,28 @@ class Ctx:
             if not b:
                 raise PathEnd()
             return
+        if not isinstance(b, z3.ExprRef):
+            # formula tree with Q leaves (ground.py): kept for the VCs, invisible to the
+            # feasibility solver
+            self.pc.append(b)
+            return
         b = z3.simplify(b)
         if z3.is_true(b):
             return
         if z3.is_false(b):
             raise PathEnd()
         self.pc.append(b)
-        self.solver.add(b)
+        if not has_quantifier(b):
+            # the feasibility solver only sees quantifier-free facts (pruning is an
+            # optimisation: an infeasible path that is not pruned yields VCs with an
+            # inconsistent path condition, which discharge trivially)
+            self.solver.add(b)
 
     def feasible(self, b):
         if isinstance(b, bool):
             return b
+        if not isinstance(b, z3.ExprRef):
+            return True
         b = z3.simplify(b)
         if z3.is_true(b):
             return True
@@ -192,6 +226,16 @@ class Ctx:
         self.ob_seq += 1
         if isinstance(goal, bool):
             goal = z3.BoolVal(goal)
+        if not isinstance(goal, z3.ExprRef):
+            key = (self.ob_seq, name, self.decided())
+            if key not in self.ex.vc_keys:
+                self.ex.vc_keys.add(key)
+                site = 'line %d' % node.lineno if node is not None and hasattr(node, 'lineno') else ''
+                self.ex.vcs.append(VC(name, list(self.pc), goal, site, self.decided(),
+                                      self.ex.func_label, kind, self.roles))
+            if assume_after:
+                self.assume(goal)
+            return
         g = z3.simplify(goal)
         key = (self.ob_seq, name, self.decided())
         if key not in self.ex.vc_keys:
@@ -201,7 +245,7 @@ class Ctx:
                 site = 'line %d' % node.lineno
             if not z3.is_true(g):
                 self.ex.vcs.append(VC(name, list(self.pc), g, site, self.decided(),
-                                      self.ex.func_label, kind))
+                                      self.ex.func_label, kind, self.roles))
             else:
                 self.ex.vcs.append(VC(name, [], z3.BoolVal(True), site, self.decided(),
                                       self.ex.func_label, kind))
@@ -813,8 +857,9 @@ class Interp:
                 fr.locals[nm] = ctx.fresh_like(fr.locals[nm], nm)
         if ls.kinds:
             for nm, mk in ls.kinds.items():
-                if nm not in fr.locals:
-                    fr.locals[nm] = mk(ctx, fr)
+                v = mk(ctx, fr)
+                if v is not None:
+                    fr.locals[nm] = v
         if ls.havoc:
             ls.havoc(ctx, fr)
         if post_havoc:
@@ -836,6 +881,8 @@ class Interp:
             except ContinueSig:
                 pass
             except BreakSig:
+                if ls.on_exit:
+                    ls.on_exit(ctx, fr)
                 return   # leaves the loop with this path's state; orelse skipped
             for lbl, b in ls.inv(ctx, fr):
                 ctx.oblige(pfx + 'inv-preserve.' + lbl, b, s, assume_after=False)
@@ -850,6 +897,8 @@ class Interp:
                     raise PathEnd()
             elif cond():
                 raise PathEnd()
+            if ls.on_exit:
+                ls.on_exit(ctx, fr)
             self.exec_block(ctx, fr, orelse)
 
     def st_For(self, ctx, fr, s):
@@ -1284,6 +1333,8 @@ class Interp:
             return VFunc('ometh', name, recv)
         if isinstance(recv, (VBytes, VStr, VTuple, VInt)):
             return VFunc('meth', name, recv)
+        if isinstance(recv, (prims.VStruct, prims.VLogger)):
+            return VFunc('meth', name, recv)
         if isinstance(recv, VFunc):
             raise Unsupported('attribute %s of function' % name, node)
         raise Unsupported('attribute %s of %r' % (name, recv), node)
@@ -1493,7 +1544,7 @@ class Interp:
             nm = decorator_name(d)
             if nm in ('staticmethod', 'classmethod', 'property'):
                 continue
-            if nm in ('locked', 'utils.locked'):
+            if nm in ('locked', 'utils.locked', 'ZODB.utils.locked'):
                 out.append(prims.locked_decorator(ctx, self, fr, d, node))
                 continue
             raise Unsupported('decorator %s' % nm, node)
